@@ -72,6 +72,13 @@ func (g *Gen) genTx(fam string) *world.TxJSON {
 		if g.R.Intn(250) == 0 && first.Value.Cmp(big.NewInt(400)) > 0 {
 			// a very long list (more than 255 entries) of one token, one unit each
 			cnt := 254 + g.R.Intn(50)
+			if g.R.Intn(3) == 0 {
+				// longer still: past 340 entries the emitted message has more than 1024 '@'-separated parts
+				cnt = []int{340, 341, 342, 400, 1000}[g.R.Intn(5)]
+				if first.Value.Cmp(big.NewInt(int64(cnt))) <= 0 {
+					cnt = 341
+				}
+			}
 			var items [][]byte
 			_, nb := g.tokenID(first.Token, first.Nonce)
 			for i := 0; i < cnt; i++ {
